@@ -13,6 +13,9 @@ def gen_ast(rnd, i, rich=True):
     if rnd.random() < 0.12:
         # identifiers SQLite accepts bare: letters beyond ASCII
         names[rnd.randrange(ncols)] = rnd.choice(["é", "ñame", "日本", "aé", "ü_1"])
+    elif rnd.random() < 0.08:
+        # names that only exist quoted, containing the quote characters themselves (written doubled inside the quotes)
+        names[rnd.randrange(ncols)] = rnd.choice(['q"t', "b`t", "s't", "x y", "k]z", 'd""d', "e``e", "select", "a.b", "(p)"])
     wr = rnd.random() < 0.25
     cols = []
     pk_col = None
@@ -37,7 +40,7 @@ def gen_ast(rnd, i, rich=True):
             cons.append({"k": "null"})
         if rnd.random() < 0.2:
             cons.append({"k": "default", "v": rnd.choice(["5", "-3", "'x'", "NULL", "1.5", "+2"])})
-        if rich and rnd.random() < 0.12:
+        if rich and rnd.random() < 0.12 and (n.isalnum() or not n.isascii()) and n != "select":
             cons.append({"k": "check", "e": "%s > 0" % n})
         if rich and rnd.random() < 0.08:
             cons.append({"k": "references", "t": "other", "c": "x"})
@@ -121,12 +124,17 @@ class Style:
         if self.idcase:
             s = "".join((ch.upper() if self.rnd.random() < 0.5 else ch.lower()) if ch.isascii() else ch for ch in s)
         q = self.quote if self.quote != "mix" else self.rnd.choice(["bare", "dq", "br", "bt"])
+        plain = all(ch.isalnum() or ch == "_" or not ch.isascii() for ch in s) and s.lower() != "select"
+        if not plain and q == "bare":
+            q = self.rnd.choice(["dq", "bt", "br"])
+        if q == "br" and "]" in s:
+            q = "dq"
         if q == "dq":
-            return '"%s"' % s
+            return '"%s"' % s.replace('"', '""')
         if q == "br":
             return "[%s]" % s
         if q == "bt":
-            return "`%s`" % s
+            return "`%s`" % s.replace("`", "``")
         return s
 
 
